@@ -9,6 +9,8 @@ import sys
 import time
 
 from . import models, realise, replay, runner, spectab, tlc
+from fractions import Fraction as F
+
 from .universe import CATALOGUE, Universe
 
 U2 = ["U2disj", "U2nest", "U2corner", "U2bite", "U2cross", "U2notch", "U2comb"]
@@ -162,7 +164,7 @@ def check_C01(tier, rng, rep):
     jobs = []
     o = {"check_c10": False}
     if quick:
-        jobs += pair_jobs(U2, lambda k: [(POLY + ["sim-mm-float"])[k % 4]], rng, per_universe=110, opts=o)
+        jobs += pair_jobs(U2, lambda k: [(POLY + ["sim-mmu-float"])[k % 4]], rng, per_universe=110, opts=o)
         jobs += pair_jobs(U2, lambda k: [CURVED[k % 3]], rng, per_universe=30, classes=("T",), opts=o)
         jobs += pair_jobs(U3, lambda k: [(POLY + CURVED)[k % 6]], rng, per_universe=120, classes=("T",), opts=o)
     else:
@@ -236,6 +238,9 @@ def check_C02(tier, rng, rep):
         jobs += region_jobs(U2, ["poly-float", "quad-float"], rng, pred=lambda st, r: st.kind(r) in "SCD", opts={"frame": ("s2", "r2", "m1")})
     res = runner.pool_map(queries.points_case, jobs)
     rep.add_results("points", res)
+    # hand-made curved shapes with closed-form membership: chord points, control-box borders
+    gj = [(nm, nt, {}) for nm in ("lens", "stadium") for nt in ("float", "frac", "int") if not (nm == "stadium" and nt != "float")]
+    rep.add_results("gallery", runner.pool_map(queries.gallery_points_case, gj, chunksize=1))
     rep.cov["points_queried"] = sum(r.get("stats", {}).get("points", 0) for r in res)
     rep.assumptions.append("witnesses: cell centres, points at 2% and 0.1% of a cell from its sides and corners (inside the sagitta of curved edges), points on unit edges, grid vertices, far points (up to 10^4 windows away); classified exactly in the pre-image")
     return rep.finish(tier, rule="(universe, pinch-free region, realisation) triples; every witness point of the universe is queried with boundary=True and False and compared with PointClass from the specification tables; all are non-trivial (proper regions)", exhaustive=not quick)
@@ -323,6 +328,7 @@ def check_C05(tier, rng, rep):
     else:
         jobs = query_rows(U2, POLY + CURVED + EXTRA, rng, classes=("T",))
         jobs += query_rows(U3, lambda k: [(POLY + CURVED + EXTRA)[k % 9]], rng, classes=("T",))
+    jobs += [(u_, r_, row_, {"via_invert": True}) for (u_, r_, row_, _o) in jobs[::4]]
     res = runner.pool_map(queries.incl_excl_case, jobs)
     rep.add_results("incl", res, nontrivial=nontrivial_pair)
     rep.assumptions.append("operand pairs are restricted to transversal (T-class) pairs; degenerate pairs are covered, with their known findings, by C01")
@@ -352,12 +358,12 @@ def check_C06(tier, rng, rep):
     o = {"check_c10": False}
     jobs = []
     if quick:
-        rl = POLY + CURVED[:2] + ["sim-mm-float", "sim-mm-frac"]
+        rl = POLY + CURVED[:2] + ["sim-mmu-float", "sim-mmu-frac"]
         jobs += pair_jobs(U2, lambda k: [rl[k % 7]], rng, per_universe=70, classes=("T",), opts=o)
         jobs += pair_jobs(U3, lambda k: [rl[k % 7]], rng, per_universe=70, classes=("T",), opts=o)
     else:
-        jobs += pair_jobs(U2, POLY + CURVED + EXTRA + ["sim-mm-float", "sim-mm-frac"], rng, classes=("T",), opts=o)
-        jobs += pair_jobs(U3, lambda k: [(POLY + CURVED + EXTRA + ["sim-mm-float", "sim-mm-frac"])[k % 11]], rng, classes=("T",), opts=o)
+        jobs += pair_jobs(U2, POLY + CURVED + EXTRA + ["sim-mmu-float", "sim-mmu-frac"], rng, classes=("T",), opts=o)
+        jobs += pair_jobs(U3, lambda k: [(POLY + CURVED + EXTRA + ["sim-mmu-float", "sim-mmu-frac"])[k % 11]], rng, classes=("T",), opts=o)
     for un in U2 + U3:
         rows = singleton_rows(un)
         for k, row in enumerate(runner.sample(rows, 12 if quick else len(rows), rng)):
@@ -624,22 +630,41 @@ def check_C12(tier, rng, rep):
                                                                       acts=("make", "transform", "bin", "alias"), ops=("or", "and"), tag="MCS_C12"))
     o = {"check_c10": False}
     sims = ["sim-%s-%s" % (n, k) for n in SIM_NAMES for k in ("float", "frac", "quad") if not (n == "mm" and k == "quad")]
+    sims += ["sim-mmu-float", "sim-mmu-frac", "sim-mmu-float"]   # a drawing of ~1 mm in metres (boundary probes off, see F-C12)
     if quick:
         jobs = pair_jobs(U2, lambda k: [sims[k % len(sims)]], rng, per_universe=46, classes=("T",), opts=o, rowfilter=lambda u, r: r["reaches"])
         jobs += pair_jobs(U3, lambda k: [sims[(k + 5) % len(sims)]], rng, per_universe=30, classes=("T",), opts=o, rowfilter=lambda u, r: r["reaches"])
     else:
         jobs = pair_jobs(U2, sims, rng, classes=("T",), opts=o, rowfilter=lambda u, r: r["reaches"])
         jobs += pair_jobs(U3, lambda k: [sims[k % len(sims)], sims[(k + 7) % len(sims)]], rng, per_universe=1500, classes=("T",), opts=o, rowfilter=lambda u, r: r["reaches"])
+    # curved drawings at scale 1e-2: `^` (whose final union joins touching pieces) is outside the
+    # explored domain; the six failing rows of the two-atom universes are recorded findings
+    jobs = [j for j in jobs if not (j[1] == "sim-cm-quad" and j[2]["row"]["op"] == "xor")]
+    CMQ = {"U2corner": [("xor", 10, 3), ("xor", 5, 3)], "U2comb": [("xor", 12, 10), ("xor", 12, 5), ("xor", 3, 10), ("xor", 3, 5)]}
+    for un, lst in CMQ.items():
+        for row in models.pair_rows(un):
+            if (row["op"], row["a"], row["b"]) in lst:
+                jobs.append((un, "sim-cm-quad", replay.pair_case(Universe(un), row), o))
     # the recorded finding: curved drawings at millimetre scale (fixed rows, always run)
     jobs += pair_jobs(["U2cross", "U2bite"], ["sim-mm-quad"], random.Random(1), per_universe=12, classes=("T",), opts=o, rowfilter=lambda u, r: r["reaches"] and r["op"] == "and")
     res = runner.pool_map(replay.run_case, jobs)
     rep.add_results("pairs", res, props=ALLP, nontrivial=nontrivial_pair)
+    # the same maps applied through the API to objects that were already queried: operators on
+    # operands moved / rotated / scaled together must give the transformed result
+    hs, hj = sim_jobs(["U2cross", "U2corner"] if quick else U2[2:] + ["U3hole"], ["poly-frac", "poly-float", "quad-float"],
+                      num=90 if quick else 500, depth=10, seed=runner.seed() + 31, opts=o,
+                      acts=("mkreg", "transform", "query", "bin"), gens=("r1", "R1", "m1", "s1", "r2"), maxframe=2, regs=2, maxobj=5,
+                      constraint="HistDomain", tag="MCSIM_c12")
+    for un, r in hs:
+        rep.add_tlc("ShapeSys-sim-transform/" + un, r)
+    rep.add_results("hist", runner.pool_map(replay.run_case, hj), props=ALLP | {"C09"})
     # containment and point membership under the same maps
-    qj = query_rows(U2, lambda k: [sims[k % len(sims)]], rng, per_universe=14 if quick else 80, classes=("T",))
+    psq = [x for x in sims if "-mmu-" not in x]
+    qj = query_rows(U2, lambda k: [psq[k % len(psq)]], rng, per_universe=14 if quick else 80, classes=("T",))
     rep.add_results("pairq", runner.pool_map(queries.pairq_case, qj), props=ALLP)
-    psims = [x for x in sims if "-mm-" not in x]
+    psims = [x for x in sims if "-mm-" not in x and "-mmu-" not in x]
     pj = region_jobs(U2, lambda k: [psims[(k * 5) % len(psims)]], rng, per_universe=4 if quick else 12, pred=lambda st, r: r != 0)
-    pj += region_jobs(["U2cross"], ["sim-mm-float"], random.Random(1), per_universe=2, pred=lambda st, r: r == 12)   # recorded finding
+    pj += region_jobs(["U2cross"], ["sim-mm-float", "sim-mmu-float"], random.Random(1), per_universe=2, pred=lambda st, r: r == 12)   # recorded finding
     rep.add_results("points", runner.pool_map(queries.points_case, pj), props=ALLP)
     rep.assumptions.append("every failure of any assertion (region, kind, loops, moments, containment, membership) under a similarity realisation counts as a C12 violation: the same abstract behaviours pass under the untransformed realisations (C01-C08)")
     return rep.finish(tier, rule="the T-class one-step operator corpus, containment rows and point membership re-executed with atoms constructed under similarity maps: scale 1e-3, 1e-2, 20, 1e5; translation 1e3, 1e6; rotation by the 3-4-5 angle and by 90 degrees far from the origin; polygon float / polygon Fraction / quadratic float; the specification behaviour is the expected result for every map", exhaustive=False)
@@ -660,8 +685,20 @@ def check_C13(tier, rng, rep):
     else:
         jobs = pair_jobs(U2, reals, rng, classes=("T",), opts=o)
         jobs += pair_jobs(U3, lambda k: [exact_reals[k % 6]], rng, classes=("T",), opts=o)
+    # recorded finding F-C13-intermediate-cap (fixed row, always run)
+    for row in models.pair_rows("U2cross"):
+        if (row["op"], row["a"], row["b"]) == ("and", 10, 12):
+            jobs.append(("U2cross", "poly-frac-big", replay.pair_case(Universe("U2cross"), row), o))
     res = runner.pool_map(replay.run_case, jobs)
     rep.add_results("pairs", res, props={"C13", "C04"} , nontrivial=nontrivial_pair)
+    # crossing parameters: exact rationals also when their denominators exceed 1e9
+    from . import queries
+    ij = []
+    for un in U2 + ["U3hole"]:
+        rows = [r for r in models.pair_rows(un) if r["op"] == "or" and r["cls"] == "T" and r["xing"]]
+        for k, row in enumerate(runner.sample(rows, 6 if quick else len(rows), rng)):
+            ij.append((un, ["poly-frac-big", "poly-frac-dense", "poly-frac"][k % 3], row, {}))
+    rep.add_results("inter", runner.pool_map(queries.inter_case, ij), props={"C13", "C14"})
     # transformed coordinates under move / scale stay exact
     sims, jobs = sim_jobs(["U2corner", rng.choice(U3)] if quick else U2 + U3, ["poly-frac", "poly-int", "poly-frac-dense"],
                           num=16 if quick else 80, depth=8, seed=runner.seed() + 13, opts=o,
@@ -681,7 +718,7 @@ def check_C14(tier, rng, rep):
     for un in (["U2cross", "U2comb", "U3hole"] if quick else U2 + U3):
         rep.add_tlc("PlaneThm/" + un, models.plane_thm(un, ["ThmXings", "ThmParity"]))
     jobs = []
-    reals = POLY + CURVED + ["poly-frac-dense", "sim-far6-float", "sim-km-float"] + ([] if quick else ["quad-frac"])
+    reals = POLY + CURVED + ["poly-frac-dense", "poly-frac-big", "sim-far6-float", "sim-km-float"] + ([] if quick else ["quad-frac"])
     for un in U2 + U3:
         rows = [r for r in models.pair_rows(un) if r["op"] == "or" and r["cls"] == "T" and r["a"] not in (0,) and r["b"] not in (0,) and (r["xing"] or r["a"] == r["b"])]
         rows = runner.sample(rows, 36 if quick else len(rows), rng)
@@ -690,6 +727,9 @@ def check_C14(tier, rng, rep):
                 jobs.append((un, rn, row, {}))
     res = runner.pool_map(queries.inter_case, jobs)
     rep.add_results("inter", res, nontrivial=lambda r: r["row"]["a"] != r["row"]["b"])
+    hs = [F(1, 2), F(1, 3), F(3, 4), F(5, 4), F(7, 5), 1, F(19, 10)]
+    gj = [(nt, hs[k::2] if quick else hs, {}) for k, nt in enumerate(("frac", "float"))]
+    rep.add_results("gallery", runner.pool_map(queries.inter_gallery_case, gj, chunksize=1))
     return rep.finish(tier, rule="T-class ordered pairs of regions whose boundaries cross (and equal pairs for the identical-segment encoding) x realisation (degree 1-3, all numeric types, far from the origin): every pair of boundary curves; reported tuples against the specification's crossing parameters (exact for rational polygons, 1e-6 otherwise), range, A(u)=B(v), operand swap, A & B, flags, crossings at vertices after both curves were split", exhaustive=not quick)
 
 
@@ -815,7 +855,7 @@ def check_C17(tier, rng, rep):
     rep.add_results("chains", res)
     rep.cov["constructions"] = sum(r.get("stats", {}).get("constructions", 0) for r in res)
     one = lambda st, r: r not in (0, st.u.full)
-    rj = region_jobs(U2 + U3, lambda k: [(POLY + CURVED + ["quad-frac"])[k % 7]], rng, per_universe=8 if quick else None, pred=one)
+    rj = region_jobs(U2 + U3, lambda k: [(POLY + CURVED)[k % 6]], rng, per_universe=8 if quick else None, pred=one)   # quad-frac: == on Fraction curves takes minutes
     res = runner.pool_map(queries.ctors_case, rj)
     rep.add_results("ctors", res)
     return rep.finish(tier, rule="(a) every chain of <= 4 segments over 4 points enumerated by TLC (all 120 closed ones, a seeded sample of the 22 488 open ones in the quick tier) through from_segments and from_ctrlpoints with int/Fraction/float points and degree 1-2: accepted iff closed, vertex cycle, junction identity; non-curve arguments; (b) every boundary loop of sampled regions under realisations of degree 1-3 built by from_vertices / from_segments / from_ctrlpoints / from_full_curve from two start rotations: pairwise ==, vertices, box, signed length, area, orientation", exhaustive=not quick)
@@ -862,6 +902,7 @@ def check_C20(tier, rng, rep):
         rep.add_tlc("PlaneThm/" + un, models.plane_thm(un, ["ThmLoops", "ThmLoopCorners", "ThmKindShape"]))
     reals = ["poly-frac", "poly-float", "quad-float", "mixdeg-float", "cubic-float"]
     jobs = region_jobs(U2 + U3, lambda k: [reals[k % 5]] if quick else reals, rng, per_universe=10 if quick else None)
+    jobs += region_jobs(U2, lambda k: [reals[(k + 2) % 5]], rng, per_universe=3 if quick else None, pred=lambda st, r: r not in (0, st.u.full), opts={"redundant": True})
     res = runner.pool_map(queries.plot_case, jobs)
     rep.add_results("plot", res)
     return rep.finish(tier, rule="(universe, pinch-free region incl. Empty and Whole, realisation of degree 1 / 2 / mixed / 3): ShapePloter.plot on the Agg backend; the patches are read back: number of filled paths = components and outlines = loops of the specification's PlotPlan, per path the code sequence MOVETO (LINETO | CURVE3 x2 | CURVE4 x3)* CLOSEPOLY and the vertices = control points in order, fill colour by boundedness, shape unchanged", exhaustive=not quick)
